@@ -1,6 +1,6 @@
 """C05 -- critical failure aborts at once."""
 
-from . import runrules, shutrules, common
+from . import predicates, runrules, shutrules, common
 
 
 def check(ctx, rep):
@@ -9,7 +9,7 @@ def check(ctx, rep):
         "raised(t) and critical(job(t))`, and the run continues only under the exact complement. R05.2 every "
         "successor start lies on a path where this iteration's abort test was already evaluated negative. "
         "R05.3 abort path = EXIT automaton Live -> Tidied -> Shut -> return False, with no wait for normal "
-        "completion. R05.4 tidy = cancel every element, then await all, unbounded.")
+        "completion. R05.4 tidy = cancel every element, then await all, unbounded. R05.7 (= R02.6) raised_exception(), which the run reads to tell a failure, is the exception of the job's own task for atomic jobs and nested schedulers alike.")
     rep.declined = ["'at that same instant' in wall-clock terms"]
     rep.trusted = ["T1", "T3"]
     runrules.detection_exact(ctx, rep, "R05.1")
@@ -17,3 +17,4 @@ def check(ctx, rep):
     runrules.tidy_shape(ctx, rep, "R05.4")
     shutrules.cancellation_edges(ctx, rep, "R05.5")
     common.no_handover_on_critical_failure(ctx, rep, "R05.6")
+    predicates.outcome_tables(ctx, rep, "R05.7", names=("raised_exception",))
